@@ -68,6 +68,9 @@ def generate(prop, rng):
                 q["rm_fault"] = rng.choice(["EACCES", "EIO"])
             if kind == "verify_add":
                 q["hardlink"] = rng.random() < 0.35
+                if rng.random() < 0.3:
+                    # the read that verifies a freshly added object fails (EIO / stale handle)
+                    q["read_fault"] = {"nth": rng.randint(1, 3), "exc": rng.choice(["EIO", "EACCES"])}
                 q["corrupt"] = rng.random() < 0.7
                 q["evict_first"] = rng.random() < 0.7  # the objects are not in the store yet: add() really copies
                 q["objs"] = rng.sample(labels, min(len(labels), rng.choice([1, 2, 3, 3])))
@@ -383,13 +386,40 @@ def execute(sc, ctx):
                 w.raw_write(src, data)
                 srcs.append(src)
                 pre[o] = M[o]["present"] and M[o]["bytes"] != good[o]
+            rf = op.get("read_fault")
+            rf0 = ctx.seam.fired.get("verify_read", 0)
+            if rf:
+                ctx.seam.faults = [{"at": ("open_r",), "match": "cache/", "sub": True, "nth": rf["nth"], "exc": rf["exc"],
+                                    "name": "verify_read", "count": 1}]
             try:
                 odb.add(srcs, w.localfs, list(objs), verify=True, hardlink=bool(op.get("hardlink")))
             except Exception as exc:  # noqa: BLE001
-                ctx.violate("verify-add-raised", type(exc).__name__, repr(exc))
+                if not (isinstance(exc, OSError) and ctx.seam.fired.get("verify_read", 0) > rf0):
+                    ctx.violate("verify-add-raised", type(exc).__name__, repr(exc))
+            finally:
+                ctx.seam.faults = []
+            read_failed = ctx.seam.fired.get("verify_read", 0) > rf0
+            if read_failed:
+                # the add could not verify (and may have given up): nothing is claimed about what it left,
+                # except that nothing mismatching may pass for valid now
+                ctx.probe("verification_read_failed")
+                for j, o in enumerate(objs):
+                    a = actual(o)
+                    if a is None or a == good[o]:
+                        continue
+                    if cfg["store"] == "local":
+                        accepted = odb.exists(o)  # the local existence query is an integrity check
+                    else:
+                        try:
+                            odb.check(o)
+                            accepted = True
+                        except Exception:  # noqa: BLE001
+                            accepted = False
+                    if accepted:
+                        ctx.violate("corrupt-object-accepted", "after-unverifiable-add", model.short(o))
             for j, o in enumerate(objs):
                 a = actual(o)
-                if a is not None and a != good[o]:
+                if a is not None and a != good[o] and not read_failed:
                     ctx.violate("verifying-store-retained-mismatch",
                                 ("corrupt-source" if op.get("corrupt") else "pre-tampered") + f":position{min(j, 2)}-of-{min(len(objs), 3)}",
                                 f"op{n}: {model.short(o)} holds {len(a)} wrong bytes after add(verify=True) of {len(objs)} objects")
